@@ -22,12 +22,26 @@ type c03Case struct {
 	Seed uint64   `json:"seed"`
 	Idx  []uint16 `json:"idx,omitempty"` // hashes: leaf i = H(seed, idx[i]); equal idx => repeated hash; 0xFFFF zero hash, 0xFFFE all-ones
 	Raw  []ev.B   `json:"raw,omitempty"` // hashes: explicit leaves (appended after Idx)
-	N    int      `json:"n,omitempty"`   // block: number of transactions (distinct nonces seed+i)
+	N    int      `json:"n,omitempty"`   // block: number of transactions (distinct nonces seed+i); large: number of leaves
+	Rep  int      `json:"rep,omitempty"` // large: leaf i = H(seed, i mod Rep) (0: all distinct)
 	Code ev.B     `json:"code,omitempty"`
 }
 
 func (c *c03Case) leaves() [][32]byte {
-	out := make([][32]byte, 0, len(c.Idx)+len(c.Raw))
+	out := make([][32]byte, 0, len(c.Idx)+len(c.Raw)+c.N)
+	if c.Mode == "large" {
+		for i := 0; i < c.N; i++ {
+			k := i
+			if c.Rep > 0 {
+				k = i % c.Rep
+			}
+			var b [12]byte
+			binary.LittleEndian.PutUint64(b[:], c.Seed)
+			binary.LittleEndian.PutUint32(b[8:], uint32(k))
+			out = append(out, dsha(b[:]))
+		}
+		return out
+	}
 	for _, ix := range c.Idx {
 		var h [32]byte
 		switch ix {
@@ -52,12 +66,35 @@ func (c *c03Case) leaves() [][32]byte {
 	return out
 }
 
+// c03Boundaries: sizes next to every power of two 2^j and every 1.5*2^j for j = 10..maxJ
+func c03Boundaries(maxJ int) []int {
+	var out []int
+	for j := 10; j <= maxJ; j++ {
+		for _, b := range []int{1 << j, 3 << (j - 1)} {
+			for d := -1; d <= 2; d++ {
+				out = append(out, b+d)
+			}
+		}
+	}
+	return out
+}
+
 func genC03(t *rapid.T) c03Case {
 	c := c03Case{Seed: rapid.Uint64().Draw(t, "seed")}
 	maxN := ev.Scale(300, 1200)
+	if rapid.IntRange(0, ev.Scale(59, 149)).Draw(t, "largemode") == 31 {
+		// large lists: sizes around 2^j and 1.5*2^j and anywhere up to 10000 (thorough 70000)
+		c.Mode = "large"
+		c.N = rapid.OneOf(rapid.SampledFrom(c03Boundaries(ev.Scale(13, 16))), rapid.IntRange(1000, ev.Scale(10000, 70000))).Draw(t, "n")
+		c.Rep = rapid.SampledFrom([]int{0, 0, 0, 1, 2, 3, 1000}).Draw(t, "rep")
+		return c
+	}
 	if rapid.IntRange(0, 5).Draw(t, "blockmode") == 0 {
 		c.Mode = "block"
 		c.N = rapid.OneOf(rapid.IntRange(0, 12), rapid.IntRange(0, ev.Scale(40, 130))).Draw(t, "n")
+		if rapid.IntRange(0, 39).Draw(t, "bigblock") == 17 {
+			c.N = rapid.OneOf(rapid.SampledFrom(c03Boundaries(11)), rapid.IntRange(1000, ev.Scale(3100, 9000))).Draw(t, "bign")
+		}
 		c.Code = genBytesN(0, 12).Draw(t, "code")
 		return c
 	}
@@ -83,6 +120,9 @@ func runC03(ctx *ev.Ctx, c c03Case) {
 	}
 	leaves := c.leaves()
 	n := len(leaves)
+	if n >= 1024 {
+		ctx.Label("n>=1024")
+	}
 	if n >= 3 && oddLevel(n) {
 		ctx.NonTrivial()
 	}
@@ -267,13 +307,20 @@ func TestC03(t *testing.T) {
 		for n := 0; n <= ev.Scale(24, 80); n++ {
 			cases = append(cases, c03Case{Mode: "block", Seed: uint64(1000 + n), N: n})
 		}
+		// large lists at every boundary 2^j-1..2^j+2 and 1.5*2^j-1..1.5*2^j+2, j = 10..13 (thorough ..16), and a few large real blocks
+		for _, n := range c03Boundaries(ev.Scale(13, 16)) {
+			cases = append(cases, c03Case{Mode: "large", Seed: uint64(n), N: n})
+		}
+		for _, n := range []int{1023, 1024, 1025, 1200, 1536, 1537, 2049, 3000} {
+			cases = append(cases, c03Case{Mode: "block", Seed: uint64(7000 + n), N: n})
+		}
 		ev.DriveList(t, "C03", cases, runC03)
 		if t.Failed() {
 			return
 		}
 	}
 	ev.Drive(t, "C03",
-		"cases: every list length 0..130 (thorough 0..600) and every block size 0..24 (thorough 0..80) once, then lists of 0..300 (thorough 0..1200) 32-byte hashes (pseudo-random, heavily repeated, all-zero / all-ones, explicit arbitrary leaves) "+
+		"cases: every list length 0..130 (thorough 0..600) and every block size 0..24 (thorough 0..80) once, large lists at 2^j-1..2^j+2 and 1.5*2^j-1..1.5*2^j+2 for j=10..13 (thorough ..16) and blocks of 1023..3000 txs once, then lists of 0..300 (thorough 0..1200) 32-byte hashes and (1 case in 60, thorough 150) large lists of 1000..10000 (thorough 70000) hashes around the same boundaries (pseudo-random, heavily repeated, all-zero / all-ones, explicit arbitrary leaves) "+
 			"handed to ComputeMerkleRoot, and blocks of 0..40 (thorough 0..130) real transactions through RebuildMerkleRoot and the block decoder (reference root accepted; zero / all-ones / arbitrary / bit-flipped / n-1 / n+1 / reversed / odd-paired-with-zero / single-SHA roots refused, for every n incl. 0); "+
 			"oracle: independent recursive Bitcoin-style double-SHA-256 root. non-trivial: n >= 3 and some tree level has odd width; distinct by JSON encoding of the case",
 		genC03, runC03)
